@@ -217,6 +217,14 @@ def fill_fn(spec, canary, canary_ids, log):
             raise Undecided("rewrite %s /%s/ did not apply in fn %s (source changed shape)"
                             % (rid, rx, spec["name"]))
         applied.append("%s x%d" % (rid, count))
+    if spec.get("isolation"):
+        tpl_text = "\n".join(spec["spec"] + [l for v in spec["loops"].values() for l in v]
+                             + [l for v in spec.get("endloops", {}).values() for l in v]
+                             + [l for a in spec["before"] + spec["after"] for l in a["lines"]]
+                             + [a["rx"] for a in spec["before"] + spec["after"]])
+        body, inl = R.inline_fresh_lets(sig, body, set(re.findall(r"\b[A-Za-z_]\w*\b", tpl_text)))
+        if inl:
+            applied.append("R22 inlined: " + ", ".join(inl))
     log["rewrites"].append({"fn": spec["name"], "applied": applied})
     # 2. signature: strip visibility/const, rename, name the result ----------------------------
     sig = re.sub(r"^fn\s+" + re.escape(spec["name"]), "fn " + (spec["as"] or spec["name"]), sig)
